@@ -166,6 +166,9 @@ type coreOracle struct {
 func (o *coreOracle) Name() string { return "core" }
 
 func (o *coreOracle) OnWrite(s *Sim, w *Write) {
+	if !o.sc.owns(w.Key) {
+		return
+	}
 	switch {
 	case w.Actor == "br-ctrl" && isWorkloadGK(w.Key) && w.New != nil:
 		o.checkExposure(s, w)
@@ -201,7 +204,7 @@ func (o *coreOracle) checkExposure(s *Sim, w *Write) {
 	var br *v1beta1.BatchRelease
 	if t != nil {
 		for k, rr := range t.FirstRead {
-			if k.GK == gkBR && rr.Found {
+			if k.GK == gkBR && rr.Found && o.sc.owns(k) {
 				br = rr.Obj.(*v1beta1.BatchRelease)
 			}
 		}
@@ -505,7 +508,7 @@ func (o *coreOracle) workloadAsRead(s *Sim, br *v1beta1.BatchRelease) (stable cl
 	for k, rr := range t.LastRead {
 		if k.GK == gkDeployment && rr.Found {
 			d := rr.Obj.(*appsv1.Deployment)
-			if d.Labels[canaryDepLabel] == ref.Name && d.DeletionTimestamp == nil {
+			if d.Labels[canaryDepLabel] == ref.Name && d.Namespace == br.Namespace && d.DeletionTimestamp == nil {
 				if canary == nil || d.CreationTimestamp.After(canary.CreationTimestamp.Time) || (d.CreationTimestamp.Equal(&canary.CreationTimestamp) && d.Name > canary.Name) {
 					canary = d
 				}
@@ -677,7 +680,7 @@ func (o *coreOracle) liveCanaries(s *Sim) int {
 	n := 0
 	for _, k := range s.Store.Keys(gkDeployment) {
 		d := s.Store.Peek(k).(*appsv1.Deployment)
-		if d.Labels[canaryDepLabel] == o.sc.Name && d.DeletionTimestamp == nil {
+		if d.Labels[canaryDepLabel] == o.sc.Name && d.Namespace == o.sc.NS && d.DeletionTimestamp == nil {
 			n++
 		}
 	}
@@ -709,13 +712,13 @@ func plannedFloorUp(v intstr.IntOrString, total int) int {
 
 func (o *coreOracle) OnEnd(s *Sim) {
 	sc := o.sc
-	if s.User == nil || !s.User.Released {
+	if o.sc.user == nil || !o.sc.user.Released {
 		return
 	}
 	if s.Cfg.anyFault() && s.Cfg.FaultsStopAt == 0 {
 		return // liveness is only claimed once faults stop
 	}
-	ro := s.User.getRollout()
+	ro := o.sc.user.getRollout()
 	if ro == nil {
 		s.probe("c07.terminal-gone")
 		return
@@ -732,7 +735,7 @@ func (o *coreOracle) OnEnd(s *Sim) {
 	waiting := ""
 	sub := ro.Status.GetSubStatus()
 	switch {
-	case sc.V2Fails && s.User.Version != 1:
+	case sc.V2Fails && o.sc.user.Version != 1:
 		waiting = "new revision never becomes ready"
 	case ro.Spec.Strategy.Paused && ro.DeletionTimestamp == nil && !ro.Spec.Disabled:
 		waiting = "rollout paused by the user"
@@ -741,7 +744,7 @@ func (o *coreOracle) OnEnd(s *Sim) {
 		waiting = "manual approval"
 	}
 	for i := range sc.Events {
-		if !sc.Events[i].Done && sc.Events[i].After != "" && s.User.doneKinds[sc.Events[i].After] {
+		if !sc.Events[i].Done && sc.Events[i].After != "" && o.sc.user.doneKinds[sc.Events[i].After] {
 			waiting = "user follow-up pending"
 		}
 	}
